@@ -5,7 +5,7 @@ Require Import ExtrOcamlBasic.
 From Keto Require Import Base.Bytes Api.Codec Api.CodecProofs Store.Sql Store.Mapping Store.Api Store.Spec Store.MappingProofs Engine.Ast Engine.Engine Engine.RefSem Engine.Expand Api.Transports Opl.Lexer Opl.Parser Opl.SrcPos Opl.Typecheck Conf.Watcher.
 Extraction Blacklist List String Bytes.
 Separate Extraction
-  Codec.tuple_from_string Codec.tuple_string Codec.dom_string
+  Codec.tuple_from_string Codec.tuple_string Codec.dom_string Codec.parse_file Codec.print_file CodecProofs.dom_line
   Codec.query_from_url Codec.query_to_url Codec.tuple_from_url Codec.tuple_to_url
   Codec.tuple_to_proto Codec.tuple_from_proto Codec.tuple_from_data_provider
   Codec.query_to_proto Codec.query_from_data_provider
